@@ -120,11 +120,25 @@ def run(repo: Repo, chk: Check, thorough: bool = False) -> None:
     if gaa is None:
         chk.error('R14.1: _annotations_from_function._get_all_args not found')
     else:
-        txt = ' '.join(norm(n) for n in gaa.walk() if isinstance(n, (ast.Expr, ast.Assign, ast.If)))
+        cfgg = CFG(gaa)
+        alias = {t.id: n.value.attr for n in gaa.walk() if isinstance(n, ast.Assign) and isinstance(n.value, ast.Attribute) for t in n.targets if isinstance(t, ast.Name)}
         for fld in order:
-            ok = f'.{fld}' in txt
+            ys = [y for y in gaa.walk() if isinstance(y, (ast.Yield, ast.YieldFrom)) and y.value is not None and
+                  ((isinstance(y.value, ast.Attribute) and y.value.attr == fld) or (isinstance(y.value, ast.Name) and alias.get(y.value.id) == fld))]
+            # ... whatever the other parameter lists hold: the yield depends on no test about another field (a keyword-only parameter after a bare `*`
+            # is collected although there is no *args)
+            foreign = []
+            for y in ys:
+                for t, _pol in cfgg.dominating_tests(cfgg.stmt_of(y)):
+                    about = {x.attr for x in ast.walk(t) if isinstance(x, ast.Attribute)} | {alias.get(x.id) for x in ast.walk(t) if isinstance(x, ast.Name)}
+                    if fld not in about:
+                        foreign.append(t)
+            ok = bool(ys) and not foreign
             chk.ob('R14.1', f'{MV}._annotations_from_function :: collects annotations of {fld}', ok,
-                   'yielded' if ok else f'annotations of the {fld} parameters are not collected: they are shown without their annotation', gaa.loc)
+                   'yielded, under no condition about another parameter list' if ok else
+                   (f'annotations of the {fld} parameters are not collected: they are shown without their annotation' if not ys else
+                    f'the {fld} parameters are only collected when `{norm(foreign[0])}` holds: `def f(x, *, a: int = 1)` is shown as `(x, *, a=1)` - the '
+                    'annotation of a keyword-only parameter after a bare `*` is lost'), gaa.loc)
     chk.require('R14.1', 15)
 
     # ------------------------------------------------------------------ R14.2 provenance
